@@ -42,15 +42,64 @@ STREAM_D_THOROUGH = [
     ("<<P3, PBad, P130>>", "{0, 3}") + ALL,
     ("<<P16K, P2>>", "{0, 16387, 16388}", "{0, 1, 3, 4, 5, 4096, 4097, 16387, 16388, 16389, 16390}", "{1, 2, 4095, 4096, 4097, 8192}"),
 ]
-STREAM_C = [   # senders, per sender, sync rule
-    ('"s1", "s2"', "2", "i = 2"),
-    ('"s1", "s2", "s3"', "1", 's = "s1"'),
+CONN_INV = "WireWhole NoDuplicates SenderOrder CloseFlushesAccepted FlushedIsOnWire FlushedSendFailsAfterClose BufferedSendFailsAfterFailedFlush ErrorClosesCarrier TimerCoversBuffer NoPacketFromPartial MutexDiscipline"
+CONN_PROPS = "EveryCallReturns EventuallyFlushed ReceiveUnblocked"
+BIG1 = 's = "s1" /\\ i = 1'
+# senders, per sender, delay0 values, closes, feed, receives, faults, big-packet rule, sync rule
+CONN_RELAXED = ("NoSendMutex", "CloseSkipsMutex")
+CONN_QUICK = [
+    ('"s1", "s2"', 2, "FALSE", 1, "", 0, 0, BIG1, "i = 2"),
+    ('"s1"', 2, "FALSE", 1, "2", 2, 1, "FALSE", "i = 2"),
 ]
-STREAM_C_THOROUGH = [
-    ('"s1", "s2", "s3"', "2", 's = "s1" \\/ i = 2'),
-    ('"s1", "s2"', "3", "i = 3"),
-    ('"s1", "s2", "s3", "s4"', "1", 's \\in {"s1", "s2"}'),
+CONN_THOROUGH = [
+    ('"s1"', 2, "FALSE, TRUE", 1, "2", 2, 1, BIG1, "i = 2"),
+    ('"s1", "s2"', 2, "FALSE", 1, "2", 1, 0, BIG1, "i = 2"),
+    ('"s1", "s2", "s3"', 1, "FALSE", 1, "", 0, 1, BIG1, 's = "s2"'),
+    ('"s1", "s2"', 2, "TRUE", 2, "", 0, 1, "FALSE", "FALSE"),
+    ('"s1", "s2"', 1, "FALSE", 2, "2, 2", 3, 1, BIG1, "FALSE"),
 ]
+CONN_DEVS = [   # deviation(s), the property it must violate, kind
+    ('"NoSendMutex", "NoWriterMutex"', "WireWhole", "inv"),
+    ('"CloseNoFlush"', "CloseFlushesAccepted", "inv"),
+    ('"NoWriterMutex"', "TimerCoversBuffer", "inv"),
+    ('"NoStickyError"', "BufferedSendFailsAfterFailedFlush", "inv"),
+]
+
+
+def conn_mc(run):
+    """Conn.tla: senders / flush timer / closer / receiver / failing carrier over all interleavings (C19)."""
+    wd, tier = run.wd, run.tier
+    states = trans = 0
+    configs = []
+
+    def one(c, dev="", inv=CONN_INV, props=CONN_PROPS, timeout=3000):
+        snd, per, d0, closes, feed, recvs, faults, big, sync = c
+        cfg = _cfg("ConnMC.cfg", SENDERS=snd, PER=str(per), D0=d0, CLOSES=str(closes), RECVS=str(recvs), FAULTS=str(faults), DEV=dev, INV=inv, PROPS=props)
+        if not props:
+            cfg = cfg.replace("PROPERTIES \n", "")
+        if not inv:
+            cfg = cfg.replace("INVARIANTS \n", "")
+        return lib.tlc(wd, "ConnMC", cfg, timeout=timeout, defs={"BIG": big, "SYNC": sync, "FEED": feed})
+
+    for c in CONN_QUICK + (CONN_THOROUGH if tier == "thorough" else []):
+        r = one(c)
+        _expect(r, "ConnMC %s" % (c,))
+        states += r.distinct; trans += r.generated
+        configs.append("senders {%s} x %s sends, delay0 in {%s}, %s closes, feed <<%s>>, %s receives, %s write faults: %d states" % (c[:7] + (r.distinct,)))
+    base = ('"s1", "s2"', 2, "FALSE", 1, "", 0, 0, BIG1, "i = 2")
+    devs = []
+    for dev, bad, kind in CONN_DEVS:
+        r = one(base, dev=dev, inv=bad if kind == "inv" else "", props=bad if kind == "prop" else "", timeout=900)
+        _expect(r, "ConnMC " + dev, bad)
+        devs.append("%s -> %s violated" % (dev.replace('"', ""), bad))
+    # the relaxed model (no sendMutex in Send and Close; mercury's writer mutex alone) keeps every property: this is what justifies accepting
+    # traces that only the strict model rejects
+    rb = base if tier == "thorough" else ('"s1", "s2"', 2, "FALSE", 1, "", 0, 0, "FALSE", "i = 2")
+    r = one(rb, dev=", ".join('"%s"' % d for d in CONN_RELAXED), timeout=3000)
+    _expect(r, "ConnMC relaxed")
+    states += r.distinct; trans += r.generated
+    run.add(states=states, transitions=trans, exhaustive=True, design_configs=configs, design_deviations=devs,
+            design_note="the relaxed model without sendMutex (%s) keeps every property: mercury's writer mutex serialises whole packets; %d states" % ("+".join(CONN_RELAXED), r.distinct))
 
 
 def stream_mc(run, prop):
@@ -73,18 +122,3 @@ def stream_mc(run, prop):
         _expect(r, "StreamD EofHidesPartial", "SameAsReference")
         run.add(states=states, transitions=trans, exhaustive=True, design_configs=configs,
                 design_deviations=["LimitAfterRead -> LimitBeforeBuffer violated", "EofHidesPartial -> SameAsReference violated"])
-    else:
-        for snd, per, sync in STREAM_C + (STREAM_C_THOROUGH if tier == "thorough" else []):
-            r = lib.tlc(wd, "StreamMC", _cfg("StreamC.cfg", DEV="", SENDERS=snd, PER=per), timeout=2500,
-                        defs={"PKTS": "<<P2>>", "LIMITS": "{0}", "SYNC": sync})
-            _expect(r, "StreamC %s x %s" % (snd, per))
-            states += r.distinct; trans += r.generated
-            configs.append("senders {%s} x %s sends, flushed when %s: %d states" % (snd, per, sync, r.distinct))
-        for dev, bad in (("NoSendMutex", "WireWhole"), ("CloseBeforeFlush", "CloseFlushesAccepted"), ("CloseSkipsMutex", "WireWhole"),
-                         ("NoStickyError", "temporal")):
-            r = lib.tlc(wd, "StreamMC", _cfg("StreamC.cfg", DEV='"%s"' % dev, SENDERS='"s1", "s2"', PER="2"), timeout=900,
-                        defs={"PKTS": "<<P2>>", "LIMITS": "{0}", "SYNC": "i = 2"})
-            _expect(r, "StreamC " + dev, bad)
-        run.add(states=states, transitions=trans, exhaustive=True, design_configs=configs,
-                design_deviations=["NoSendMutex -> WireWhole", "CloseBeforeFlush -> CloseFlushesAccepted", "CloseSkipsMutex -> WireWhole",
-                                   "NoStickyError -> BufferedSendFailsEventually"])
